@@ -62,6 +62,7 @@ type Frame struct {
 	params   map[string]Val
 	callOrd  map[string]int
 	panics   []retRec
+	retBlocks []int
 	dbg      map[string][]ssa.Value
 	textOrd  map[string]int
 }
@@ -107,7 +108,7 @@ func (f *Frame) oblige(kind, key, goal string, pos token.Pos, text string) *Obli
 	if n > 0 {
 		name = fmt.Sprintf("%s#%d", name, n)
 	}
-	o := &Obligation{Name: name, Kind: kind, Func: funcKey(c.Fn), Guard: f.curGuard, Goal: goal, Prefix: len(c.Log), Pos: pos, Text: text, Ctx: c}
+	o := &Obligation{Name: name, Kind: kind, Func: funcKey(c.Fn), Guard: f.curGuard, Goal: goal, Prefix: len(c.Log), Pos: pos, Text: text, Ctx: c, Blk: c.curTopBlock}
 	c.Obls = append(c.Obls, o)
 	return o
 }
@@ -297,6 +298,9 @@ func (f *Frame) run(st *State, guard string) {
 		if len(ins) == 0 {
 			continue
 		}
+		if f.top {
+			c.curTopBlock = b.Index
+		}
 		var guards []string
 		var sts []*State
 		for _, e := range ins {
@@ -365,6 +369,7 @@ func (f *Frame) run(st *State, guard string) {
 				vs = append(vs, f.val(r))
 			}
 			f.rets = append(f.rets, retRec{guard: f.curGuard, vals: vs, st: cur, pos: t.Pos(), idx: len(f.rets)})
+			f.retBlocks = append(f.retBlocks, b.Index)
 		case *ssa.Panic:
 			f.panics = append(f.panics, retRec{guard: f.curGuard, st: cur, pos: t.Pos(), idx: len(f.panics)})
 		}
@@ -395,6 +400,9 @@ type havocTarget struct {
 	heap string
 	key  string // "" = every key
 	cond string // "" = unconditional; else the write happens only if cond holds
+	// qbind: non-empty for a quantified target "forall k T :: g ==> target":
+	// the SMT binder list; key and cond mention the bound variables.
+	qbind string
 }
 
 func (f *Frame) loopTargets(li *loopInfo, cur *State) ([]havocTarget, bool) {
@@ -423,22 +431,22 @@ func (f *Frame) loopTargets(li *loopInfo, cur *State) ([]havocTarget, bool) {
 			ft := st.Underlying().(*types.Struct).Field(a.Field).Type()
 			if isStruct(ft) {
 				// store of whole nested struct: havoc all its field heaps
-				c.structHeaps(ft, func(h string) { out = append(out, havocTarget{h, "", ""}) })
+				c.structHeaps(ft, func(h string) { out = append(out, havocTarget{h, "", "", ""}) })
 				return
 			}
 			h, _ := c.fieldHeap(st, a.Field)
 			if _, isAlloc := a.X.(*ssa.Alloc); isAlloc && !outside(a.X) {
 				// object allocated inside the loop: fresh each iteration
-				out = append(out, havocTarget{h, "", ""})
+				out = append(out, havocTarget{h, "", "", ""})
 				return
 			}
 			if outside(a.X) {
 				if v := f.val(a.X); v.T != "" {
-					out = append(out, havocTarget{h, v.T, ""})
+					out = append(out, havocTarget{h, v.T, "", ""})
 					return
 				}
 			}
-			out = append(out, havocTarget{h, "", ""})
+			out = append(out, havocTarget{h, "", "", ""})
 		case *ssa.IndexAddr:
 			var elem types.Type
 			switch u := a.X.Type().Underlying().(type) {
@@ -455,14 +463,14 @@ func (f *Frame) loopTargets(li *loopInfo, cur *State) ([]havocTarget, bool) {
 			if outside(a.X) {
 				v := f.val(a.X)
 				if _, isSl := a.X.Type().Underlying().(*types.Slice); isSl && v.T != "" {
-					out = append(out, havocTarget{h, "(sl.base " + v.T + ")", ""})
+					out = append(out, havocTarget{h, "(sl.base " + v.T + ")", "", ""})
 					return
 				} else if v.T != "" {
-					out = append(out, havocTarget{h, v.T, ""})
+					out = append(out, havocTarget{h, v.T, "", ""})
 					return
 				}
 			}
-			out = append(out, havocTarget{h, "", ""})
+			out = append(out, havocTarget{h, "", "", ""})
 		case *ssa.Alloc:
 			et := a.Type().(*types.Pointer).Elem()
 			key := ""
@@ -474,14 +482,14 @@ func (f *Frame) loopTargets(li *loopInfo, cur *State) ([]havocTarget, bool) {
 				if key != "" {
 					out = append(out, c.objTargets(key, et)...)
 				} else {
-					c.structHeaps(et, func(h string) { out = append(out, havocTarget{h, "", ""}) })
+					c.structHeaps(et, func(h string) { out = append(out, havocTarget{h, "", "", ""}) })
 				}
 			case *types.Array:
 				h, _ := c.memHeap(u.Elem())
-				out = append(out, havocTarget{h, key, ""})
+				out = append(out, havocTarget{h, key, "", ""})
 			default:
 				h, _ := c.cellHeap(et)
-				out = append(out, havocTarget{h, key, ""})
+				out = append(out, havocTarget{h, key, "", ""})
 			}
 		case *ssa.Global:
 			all = true
@@ -492,7 +500,7 @@ func (f *Frame) loopTargets(li *loopInfo, cur *State) ([]havocTarget, bool) {
 				return
 			}
 			h, _ := c.cellHeap(et)
-			out = append(out, havocTarget{h, f.val(a).T, ""})
+			out = append(out, havocTarget{h, f.val(a).T, "", ""})
 		default:
 			// pointer value (parameter, phi, load...)
 			et, ok := addr.Type().Underlying().(*types.Pointer)
@@ -509,14 +517,14 @@ func (f *Frame) loopTargets(li *loopInfo, cur *State) ([]havocTarget, bool) {
 				if key != "" {
 					out = append(out, c.objTargets(key, et.Elem())...)
 				} else {
-					c.structHeaps(et.Elem(), func(h string) { out = append(out, havocTarget{h, "", ""}) })
+					c.structHeaps(et.Elem(), func(h string) { out = append(out, havocTarget{h, "", "", ""}) })
 				}
 			case *types.Array:
 				h, _ := c.memHeap(u.Elem())
-				out = append(out, havocTarget{h, key, ""})
+				out = append(out, havocTarget{h, key, "", ""})
 			default:
 				h, _ := c.cellHeap(et.Elem())
-				out = append(out, havocTarget{h, key, ""})
+				out = append(out, havocTarget{h, key, "", ""})
 			}
 		}
 	}
@@ -532,9 +540,9 @@ func (f *Frame) loopTargets(li *loopInfo, cur *State) ([]havocTarget, bool) {
 				if outside(x.Map) {
 					key = f.val(x.Map).T
 				}
-				out = append(out, havocTarget{d, key, ""}, havocTarget{v, key, ""})
+				out = append(out, havocTarget{d, key, "", ""}, havocTarget{v, key, "", ""})
 			case *ssa.Alloc, *ssa.MakeSlice, *ssa.MakeMap, *ssa.MakeClosure, *ssa.MakeInterface:
-				out = append(out, havocTarget{allocHeap, "", ""})
+				out = append(out, havocTarget{allocHeap, "", "", ""})
 				if a, ok := x.(*ssa.Alloc); ok {
 					// zero-initialisation writes
 					addrTargets(a, nil)
@@ -550,7 +558,7 @@ func (f *Frame) loopTargets(li *loopInfo, cur *State) ([]havocTarget, bool) {
 					all = true
 				}
 			case *ssa.Next, *ssa.Range:
-				out = append(out, havocTarget{"$iter", "", ""})
+				out = append(out, havocTarget{"$iter", "", "", ""})
 			}
 		}
 	}
@@ -605,7 +613,16 @@ func (f *Frame) applyHavoc(st *State, targets []havocTarget, all bool, guard str
 	whole := map[string]bool{}
 	condOf := map[string]string{}
 	var order []string
+	quant := map[string][]havocTarget{}
 	for _, t := range targets {
+		if t.qbind != "" && t.key != "" {
+			if _, ok := byHeap[t.heap]; !ok && !whole[t.heap] {
+				order = append(order, t.heap)
+				byHeap[t.heap] = nil
+			}
+			quant[t.heap] = append(quant[t.heap], t)
+			continue
+		}
 		if t.key != "" {
 			ck := t.heap + "\x00" + t.key
 			if prev, seen := condOf[ck]; seen {
@@ -679,6 +696,20 @@ func (f *Frame) applyHavoc(st *State, targets []havocTarget, all bool, guard str
 				nv = ite(cd, nv, "(select "+cur+" "+k+")")
 			}
 			t = "(store " + t + " " + k + " " + nv + ")"
+		}
+		if qs := quant[h]; len(qs) > 0 {
+			// quantified targets: a new heap that agrees with the old one at
+			// every key outside the described set
+			base := c.name("hq", t, srt)
+			nv := c.fresh("hqn")
+			c.declConst(nv, srt)
+			var alts []string
+			for _, qt := range qs {
+				alts = append(alts, "(exists "+qt.qbind+" "+and(qt.cond, eq("r!q", qt.key))+")")
+			}
+			alts = append(alts, eq("(select "+q(nv)+" r!q)", "(select "+base+" r!q)"))
+			c.assume(guard, "(forall ((r!q Int)) (! "+or(alts...)+" :pattern ((select "+q(nv)+" r!q))))")
+			t = q(nv)
 		}
 		c.heapSet(st, h, t)
 	}
@@ -804,7 +835,7 @@ func (f *Frame) backEdge(li *loopInfo, from *ssa.BasicBlock, guard string, st *S
 	if f.c.suppress == 0 && f.top {
 		n := len(li.backs)
 		li.backs = append(li.backs, guard)
-		o := &Obligation{Name: fmt.Sprintf("%s#consistent[loop %d back edge %d]", shortFuncKey(f.c.Fn), li.ordinal, n), Kind: "cover", Func: funcKey(f.c.Fn), Guard: li.headGuard, Goal: "false", Prefix: len(f.c.Log), Ctx: f.c, Consistency: true, Text: "assumptions inside the loop (invariants, callee contracts, axioms) are not contradictory"}
+		o := &Obligation{Name: fmt.Sprintf("%s#consistent[loop %d back edge %d]", shortFuncKey(f.c.Fn), li.ordinal, n), Kind: "cover", Func: funcKey(f.c.Fn), Guard: li.headGuard, Goal: "false", Prefix: len(f.c.Log), Ctx: f.c, Consistency: true, Blk: -1, Text: "assumptions inside the loop (invariants, callee contracts, axioms) are not contradictory"}
 		f.c.Obls = append(f.c.Obls, o)
 	}
 	f.checkInvariants(li, st, "preserved", token.NoPos)
